@@ -215,9 +215,10 @@ mirror_drv(const char* f, int r)
         if (!strcmp(f, "stop") && r == 0)
             m_run_s = m_run_l = 0;
     } else {
-        if (!strcmp(f, "set") && r == ST_ARMED)
-            ; // settings accepted: a running device keeps running
-        else if (!strcmp(f, "set") || !strcmp(f, "start") || !strcmp(f, "append") || !strcmp(f, "stop"))
+        if (!strcmp(f, "set")) {
+            if (r == ST_RUNNING) // neither accepting nor rejecting settings stops a running device
+                m_run_l = 1;
+        } else if (!strcmp(f, "start") || !strcmp(f, "append") || !strcmp(f, "stop"))
             m_run_l = (r == ST_RUNNING);
         if (!strcmp(f, "start") && r == ST_RUNNING)
             m_run_s = 1;
